@@ -38,6 +38,7 @@ type lgCtx struct {
 	types   map[string]*lgType
 	apiKeys map[string]int // root package `const ( produce apiKey = 0 … )`
 	versioned map[string]bool // types whose layout depends on a `v apiVersion` field
+	writerInfo [][3]string    // translated write*RequestV<N>: name, api key, version
 }
 
 type untranslatable struct{ why string }
@@ -819,7 +820,7 @@ func extractLegacy(repo, root string) error {
 	}
 	var sb strings.Builder
 	sb.WriteString("-- GENERATED by /verif/go/extract (legacy) from /repo/*.go — do not edit\n")
-	sb.WriteString("import KafkaVerif.Base.LegacyWire\nimport KafkaVerif.Lemmas.LegacyModel\nnamespace KV.Gen.Legacy\nopen KV KV.Legacy KV.Codec\n\n")
+	sb.WriteString("import KafkaVerif.Base.LegacyWire\nimport KafkaVerif.Lemmas.LegacyModel\nimport KafkaVerif.Lemmas.LegacyFlat\nnamespace KV.Gen.Legacy\nopen KV KV.Legacy KV.Codec\n\n")
 	sb.WriteString("/-- proves `encode (T.ty t) (T.val t) = T.writeTo t`: unfold, split the version tests, rewrite the model encoder into the\nwriteBuffer primitives (nested `legacy_model` theorems are simp lemmas) -/\n")
 	sb.WriteString("syntax \"legacy_model_tac \" ident ident ident : tactic\nmacro_rules\n  | `(tactic| legacy_model_tac $a $b $w) => `(tactic|\n      (simp only [$a:ident, $b:ident, $w:ident]\n       repeat' split\n       all_goals (first | rfl | (simp [enc_struct, encFields_cons, encFields_nil, enc_int8, enc_int16, enc_int32, enc_int64, enc_bool, enc_string, enc_bytes, enc_array, enc_array_null] <;> try (simp [writeStringArray, writeInt32Array, writeArray, writeArrayLen, writeInt32, writeString, writeInt32_fun, writeString_fun])))))\n\n")
 	sb.WriteString("/-- the one tactic that proves every `legacy_size`: unfold the two methods, rewrite written lengths into announced\nsizes (nested `legacy_size` theorems are simp lemmas), close the linear arithmetic -/\n")
@@ -968,6 +969,20 @@ theorem legacy_frame_eq_spec (h : requestHeader) (body : Bytes)
 			gl = append(gl, fmt.Sprintf("(%q, %d, %d)", e.typ, e.key, k))
 		}
 	}
+	for _, wi := range c.writerInfo {
+		name, key, ver := wi[0], wi[1], wi[2]
+		hyp, rw := "", ""
+		if strings.Contains(name, "Produce") {
+			hyp = " (hnil : a.transactionalID = none)"
+			rw = ", hnil"
+		}
+		fmt.Fprintf(&gb, "/-- the body %s writes reads as a value of the golden schema of api key %s version %s, and is the model (hence, for\nwell-typed values, the reference) encoding of that value under a type equal to the golden one up to string nullability -/\n", name, key, ver)
+		fmt.Fprintf(&gb, "theorem %s.legacy_eq_spec (a : %s.Args)%s :\n    ∃ g tw v, Spec.goldenTy %s true %s .bool = some g ∧ unflatten g (%s.prims a) = some (tw, v, []) ∧\n      Spec.denull tw = Spec.denull g ∧ flat (%s.prims a) = encode tw v := by\n", name, name, hyp, key, ver, name, name)
+		fmt.Fprintf(&gb, "  have hg : (Spec.goldenTy %s true %s .bool).isSome = true := by decide\n", key, ver)
+		fmt.Fprintf(&gb, "  obtain ⟨g, hgg⟩ := Option.isSome_iff_exists.mp hg\n")
+		fmt.Fprintf(&gb, "  have hu : ∃ tw v, unflatten g (%s.prims a) = some (tw, v, []) := by\n    have : g = (Spec.goldenTy %s true %s .bool).getD .bool := by rw [hgg]; rfl\n    subst this\n    simp only [%s.prims%s]\n    exact ⟨_, _, rfl⟩\n", name, key, ver, name, rw)
+		fmt.Fprintf(&gb, "  obtain ⟨tw, v, hu⟩ := hu\n  obtain ⟨h1, h2⟩ := unflatten_sound g _ tw v hu\n  exact ⟨g, tw, v, hgg, hu, h2, h1⟩\n\n")
+	}
 	fmt.Fprintf(&gb, "/-- (type, api key, version) of every `(*Conn).writeRequest` call site covered above -/\ndef goldenCovered : List (String × Nat × Nat) := [%s]\n\nend KV.Gen.Legacy\n", strings.Join(gl, ", "))
 	return os.WriteFile(filepath.Join(root, "lean", "KafkaVerif", "Gen", "LegacyGolden.lean"), []byte(gb.String()), 0o644)
 }
@@ -1093,6 +1108,7 @@ func (c *lgCtx) translateWriter(fd *ast.FuncDecl) (out string, err error) {
 	hdr := map[string]string{}
 	size := ""
 	var writes []string
+	var prims []string
 	for _, st := range fd.Body.List {
 		switch s := st.(type) {
 		case *ast.AssignStmt:
@@ -1165,11 +1181,15 @@ func (c *lgCtx) translateWriter(fd *ast.FuncDecl) (out string, err error) {
 						bad("statement %s", c.src(st))
 					}
 					writes = append(writes, "("+sel.Sel.Name+" "+e.val(call.Args[0])+")")
+					pk := map[string]string{"writeInt8": ".i8", "writeInt16": ".i16", "writeInt32": ".i32", "writeInt64": ".i64", "writeString": ".str",
+						"writeNullableString": ".nstr", "writeBytes": ".bytes", "writeArrayLen": ".alen"}[sel.Sel.Name]
+					prims = append(prims, "("+pk+" "+e.val(call.Args[0])+")")
 				default:
 					bad("statement %s", c.src(st))
 				}
 			case e.params[recv] == "RecordBatchBlob" && sel.Sel.Name == "writeTo":
 				writes = append(writes, "(writeInt32 a."+recv+".size ++ a."+recv+".body)")
+				prims = append(prims, "(.blob a."+recv+")")
 			default:
 				bad("statement %s", c.src(st))
 			}
@@ -1200,6 +1220,9 @@ func (c *lgCtx) translateWriter(fd *ast.FuncDecl) (out string, err error) {
 		name, name, hdr["ApiKey"], hdr["ApiVersion"], hdr["CorrelationID"], hdr["ClientID"])
 	fmt.Fprintf(&sb, "/-- `h.Size = …` -/\ndef %s.announced (a : %s.Args) : Int :=\n  %s\n", name, name, strings.ReplaceAll(size, "HSIZE", "(requestHeader.size ("+name+".hdr0 a))"))
 	fmt.Fprintf(&sb, "def %s.bytes (a : %s.Args) : Bytes :=\n  %s\n", name, name, strings.Join(writes, " ++\n  "))
+	fmt.Fprintf(&sb, "/-- the body as the flat sequence of writeBuffer calls after the header -/\ndef %s.prims (a : %s.Args) : List Prim :=\n  [%s]\n", name, name, strings.Join(prims, ", "))
+	fmt.Fprintf(&sb, "theorem %s.bytes_flat (a : %s.Args) : %s.bytes a = requestHeader.writeTo { %s.hdr0 a with Size := %s.announced a } ++ flat (%s.prims a) := by\n  simp [%s.bytes, %s.prims, flat, Prim.out]\n", name, name, name, name, name, name, name, name)
+	c.writerInfo = append(c.writerInfo, [3]string{name, fmt.Sprint(wantKey), wantVer})
 	fmt.Fprintf(&sb, "/-- the size prefix announces exactly the bytes that follow it -/\ntheorem %s.legacy_size (a : %s.Args) : ((%s.bytes a).length : Int) = 4 + %s.announced a := by\n  simp [%s.bytes, %s.announced, %s.hdr0, requestHeader.size, milliseconds]\n  try omega\n",
 		name, name, name, name, name, name, name)
 	fmt.Fprintf(&sb, "/-- the header carries the api key and the version the function is named after -/\ntheorem %s.legacy_header_version (a : %s.Args) : (%s.hdr0 a).ApiVersion = %s ∧ (%s.hdr0 a).ApiKey = %d := by\n  simp [%s.hdr0]\n",
